@@ -400,6 +400,6 @@ def valid(case):
 
 
 def phases(tier):
-    n = {"quick": 16 * 1500, "thorough": 16 * 40000}[tier]
+    n = {"quick": 16 * 1200, "thorough": 16 * 40000}[tier]
     return [dict(name="table", kind="enumerate", cases=table_cases, check=check_table),
             dict(name="data", kind="hypothesis", strategy=data_cases(tier), check=check_data, examples=n)]
